@@ -3,8 +3,8 @@ from corr import kern_family
 from checks import _sym
 from oracles import c12 as oracle
 
-GEN = ["Const", "Tol"] + _sym.GEN
-LEAN_TARGETS = ["MagpyVerif.Props.C12"] + _sym.LEAN_TARGETS
+GEN = ["Const", "Tol", "CylSegGen"] + _sym.GEN
+LEAN_TARGETS = ["MagpyVerif.Props.C12", "MagpyVerif.Gen.CylSegGen"] + _sym.LEAN_TARGETS  # CylSegGen: the regenerated CylinderSegment translation and its `sync_*` theorems against the frozen model
 PROPS = ["MagpyVerif.Props.C12"] + _sym.PROPS
 
 
@@ -21,6 +21,9 @@ def run(ctx, model_ok):
     if ctx.driver_ok:
         from corr import trimesh_family as _tf
         ctx.cov["correspondence_trimesh_inside"] = _tf.run_inside_stream(ctx, ctx.scale(150, 5000))
+    # the CylinderSegment theorems are about Model/CylSeg*.lean: is the frozen translation still what the source says, and does the port agree with the real code?
+    from checks import _cylseg
+    _cylseg.run(ctx, ctx.scale(300, 10000))
     budget = 10 if len(ctx.broken) else 1
     fails, ost = oracle.sweep(ctx, ctx.scale(60, 3000) * budget)
     ctx.failing += fails
@@ -38,6 +41,12 @@ def run(ctx, model_ok):
                             "of a vertices-form Polyline is not stated here",
                             "TriangularMesh field: Props/C06 trimesh_batch_scale_invariant; mesh VALIDATION: check_selfintersecting is NOT unit invariant (absolute eps, float32; Props/C16 witness and "
                             "known findings), check_open / check_disconnected are combinatorial; the full re-orientation is not stated here (only the seed test is_facet_inwards)",
+                            "CylinderSegment: unit invariance of the whole ported BHJM_cylinder_segment(_internal) IS proved for outer radius != 0 (`cylseg_scale_invariant_partial`: the code divides all "
+                            "lengths by r2 first, so masks, case ids and all arguments are the same numbers at every scale); not shown: r2 = 0 (unit 1, absolute tolerances act: "
+                            "`cylseg_close_not_scale_invariant`) and the homogeneity of the un-normalised core magnet_cylinder_segment_Hfield (its `close` has an absolute part; the signed "
+                            "boundary sum of the log r_i terms is not analysed) (proved elsewhere: Dipole, Sphere, segment, Cuboid, "
+                            "Triangle, Tetrahedron, Circle, the whole ported BHJM_magnet_cylinder with cel / cel0 as opaque functions, and the TriangularMesh inside test / "
+                            "bounding-box pre-filter / is_facet_inwards, tied by the trimesh-inside stream)",
                             "Cylinder: only the single-row path of `cel` (cel0) is modelled; scipy ellipk/ellipe modelled through cel0 (validated by the kern stream)",
                             "float loss of absolute offsets at extreme scales is outside exact real arithmetic"]
 
